@@ -10,7 +10,7 @@ EXTENDS Integers, Sequences, FiniteSets, TLC
 
 Dims == 1..3
 DTypes == {"bool", "uint8", "uint16", "float32", "float64"}
-TimeKinds == {"dates", "times", "none"}
+TimeKinds == {"dates", "times", "both", "none"}     \* "both": absolute dates and independently prescribed relative times
 Configs == [dim : Dims, series : {0, 1}, scalar : {0, 1}, dtype : DTypes, timekind : TimeKinds, named : {0, 1}, origin : {"default", "user"}]
 ByteFormats == [fmt : {"png", "tiff"}, bits : {8, 16}, layout : {"grey", "single", "colour"}]
 KindOf(layout) == IF layout = "colour" THEN "OpticalImage" ELSE "ScalarImage"
